@@ -1,0 +1,110 @@
+// Copyright 2025 Anapaya Systems
+//
+// Licensed under the Apache License, Version 2.0 (the "License");
+// you may not use this file except in compliance with the License.
+// You may obtain a copy of the License at
+//
+//   http://www.apache.org/licenses/LICENSE-2.0
+//
+// Unless required by applicable law or agreed to in writing, software
+// distributed under the License is distributed on an "AS IS" BASIS,
+// WITHOUT WARRANTIES OR CONDITIONS OF ANY KIND, either express or implied.
+// See the License for the specific language governing permissions and
+// limitations under the License.
+//! Verification hooks (feature `verif-hooks`): a [`PathUnawareUdpScionSocket`] over a scripted
+//! in-memory underlay, with the SCMP handlers the stack installs.
+#![allow(missing_docs)]
+
+use std::{
+    collections::VecDeque,
+    sync::{Arc, Mutex},
+};
+
+use async_trait::async_trait;
+use sciparse::{
+    address::ip_socket_addr::ScionSocketIpAddr, core::view::View as _,
+    packet::view::ScionRawPacketView,
+};
+
+use super::{
+    BoundUnderlaySocket, PathUnawareUdpScionSocket, ScionSocketReceiveError, ScionSocketSendError,
+    UnderlaySocket,
+    scmp_handler::{DefaultEchoHandler, ScmpErrorHandler, ScmpErrorReceiver, ScmpHandler},
+};
+use crate::internal::Subscribers;
+
+/// Underlay that delivers a fixed script of datagrams and records everything sent.
+struct ScriptedUnderlay {
+    inbound: Mutex<VecDeque<Vec<u8>>>,
+    sent: Arc<Mutex<Vec<Vec<u8>>>>,
+}
+
+#[async_trait]
+impl UnderlaySocket for ScriptedUnderlay {
+    fn try_send(&self, packet: &ScionRawPacketView) -> Result<(), ScionSocketSendError> {
+        self.sent.lock().unwrap().push(packet.as_slice().to_vec());
+        Ok(())
+    }
+
+    async fn writeable(&self) {}
+
+    fn try_recv(&self, buf: &mut [u8]) -> Result<usize, ScionSocketReceiveError> {
+        loop {
+            let Some(p) = self.inbound.lock().unwrap().pop_front() else {
+                // Script exhausted: a hard (non WouldBlock) error ends the caller's receive loop.
+                return Err(ScionSocketReceiveError::IoError(std::io::Error::new(
+                    std::io::ErrorKind::UnexpectedEof,
+                    "script exhausted",
+                )));
+            };
+            // Like the real underlays: only packets that decode are handed up.
+            if p.len() > buf.len() || ScionRawPacketView::try_from_slice(&p).is_err() {
+                continue;
+            }
+            buf[..p.len()].copy_from_slice(&p);
+            return Ok(p.len());
+        }
+    }
+
+    async fn readable(&self) {}
+}
+
+/// The socket plus the record of everything it sent.
+pub struct ScriptedSocket {
+    pub socket: PathUnawareUdpScionSocket,
+    pub sent: Arc<Mutex<Vec<Vec<u8>>>>,
+}
+
+/// Builds the real socket over a scripted underlay. `error_receivers` are registered with the real
+/// `ScmpErrorHandler` (always installed, as in `ScionStack::bind_with_config`); the real
+/// `DefaultEchoHandler` is installed in addition when `with_echo_handler` is set.
+pub fn scripted_udp_socket(
+    local_addr: ScionSocketIpAddr,
+    inbound: Vec<Vec<u8>>,
+    error_receivers: Vec<Arc<dyn ScmpErrorReceiver>>,
+    with_echo_handler: bool,
+) -> ScriptedSocket {
+    let sent = Arc::new(Mutex::new(Vec::new()));
+    let underlay = ScriptedUnderlay {
+        inbound: Mutex::new(inbound.into()),
+        sent: sent.clone(),
+    };
+    let subscribers: Subscribers<dyn ScmpErrorReceiver> = Subscribers::new();
+    for r in error_receivers {
+        subscribers.register(r);
+    }
+    let mut handlers: Vec<Box<dyn ScmpHandler>> =
+        vec![Box::new(ScmpErrorHandler::new(subscribers))];
+    if with_echo_handler {
+        handlers.push(Box::new(DefaultEchoHandler::new()));
+    }
+    let socket = PathUnawareUdpScionSocket::new(
+        BoundUnderlaySocket {
+            socket: Box::new(underlay),
+            local_addr,
+            snap_data_plane: None,
+        },
+        handlers,
+    );
+    ScriptedSocket { socket, sent }
+}
